@@ -176,7 +176,16 @@ OPC(vector_templates){ I4 x(in.i[0]>>3,in.i[1]>>3,in.i[2]>>3,in.i[3]>>3); I4 m((
 OPC(gtx_classify){ for(int k=0;k<8;k++){ E(glm::isfinite(in.f[k])); E(glm::isdenormal(in.f[k])); } for(int k=0;k<4;k++){ E(glm::isfinite(in.d[k])); E(glm::isdenormal(in.d[k])); }
 	E(glm::isfinite(v4(in.f+8))); E(glm::isdenormal(v4(in.f+8))); E(glm::isfinite(v3(in.f+12))); E(glm::isfinite(v2(in.f+4))); E(glm::isdenormal(v2(in.f+6))); E(glm::isfinite(D3(in.d[0],in.d[1],in.d[2])));
 	{ V4 a=glm::clamp(glm::mix(v4(in.f),V4(K(1.0f)),glm::isnan(v4(in.f))),V4(K(-1e6f)),V4(K(1e6f))); float m=pos(in.f[4]); if(m>1e-3f&&m<1e3f){ E(glm::fmod(a,m)); E(glm::fmod(a.x,m)); } } }
-static std::vector<vf::Op*> table(){ return { &gtx_classify,&fn_round,&fn_trunc,&fn_floor_ceil,&fn_fract,&fn_roundEven,&fn_sign_abs,&fn_isnan,&fn_isinf,&fn_log2,&fn_exp2,&fn_exp_log,&fn_pow_sqrt,&fn_asinh,&fn_acosh,&fn_atanh,&fn_trig,&fn_trig_inverse,&fn_reciprocal_trig,&fn_fmin_fmax,&fn_fma,&fn_frexp_ldexp_modf,&fn_mix_step_clamp_mod,&fn_nextFloat_prevFloat,&fn_gtc_next_prev_double,&relational,&integer,&integer_ext,&vec_operators,&vec_common,&vec_geometric,&matrix,&transform,&quaternion,&packing,&constructors,&decompose,&gtx_quaternion,&vector_templates }; }
+// scalar integer functions on the narrow and wide element types (compiler-specific fast paths are selected per scalar type), and gtx helpers with
+// early-out branches for special argument relations (equal / opposite / parallel arguments), where a default-constructed result would depend on CTOR_INIT
+OPC(integer_scalar_types){ for(int k=0;k<4;k++){ signed char a=(signed char)in.i[k]; short b=(short)in.i[k]; unsigned char ua=(unsigned char)in.u[k]; unsigned short ub=(unsigned short)in.u[k]; long long w=((long long)in.i[k]<<32)^(long long)in.u[(k+1)&3]; unsigned long long uw=(unsigned long long)w;
+	E(glm::bitCount(a)); E(glm::bitCount(b)); E(glm::bitCount(ua)); E(glm::bitCount(ub)); E(glm::bitCount(w)); E(glm::bitCount(uw)); E(glm::findLSB(w)); E(glm::findMSB(w)); E(glm::findLSB(uw)); E(glm::findMSB(uw)); E(glm::bitfieldReverse(uw));
+	E(glm::findNSB(in.u[k],1+(int)(in.u[(k+1)&3]%8))); E(glm::abs(a)==a); E(glm::sign((int)b)); E(glm::isPowerOfTwo((int)(ub|1))); } }
+OPC(gtx_special_relations){ V3 n=glm::normalize(glm::clamp(glm::mix(v3(in.f),V3(K(1.0f),K(2.0f),K(3.0f)),glm::isnan(v3(in.f))),V3(K(-100.0f)),V3(K(100.0f)))+V3(K(0.0f),K(0.0f),K(1e-3f))); V3 m2=glm::normalize(glm::clamp(glm::mix(v3(in.f+3),V3(K(3.0f),K(1.0f),K(2.0f)),glm::isnan(v3(in.f+3))),V3(K(-100.0f)),V3(K(100.0f)))+V3(K(0.0f),K(1e-3f),K(0.0f)));
+	E(glm::orientation(n,n)); E(glm::orientation(n,-n)); E(glm::orientation(n,m2)); E(glm::rotation(n,n)); E(glm::rotation(n,-n)); E(glm::rotation(n,m2)); E(Qf(n,n)); E(Qf(n,-n)); E(glm::slerp(n,n,K(0.25f))); E(glm::slerp(n,m2,K(0.25f)));
+	Qf q=glm::normalize(qf(in.f+8)+Qf::wxyz(K(1e-3f),K(0.0f),K(0.0f),K(0.0f))); E(glm::slerp(q,q,K(0.3f))); E(glm::slerp(q,-q,K(0.3f))); E(glm::mix(q,q,K(0.3f))); E(glm::shortMix(q,-q,K(0.3f))); E(glm::fastMix(q,q,K(0.5f))); E(glm::angle(q)); E(glm::axis(Qf::wxyz(K(1.0f),K(0.0f),K(0.0f),K(0.0f)))); E(glm::axis(q));
+	E(glm::rotate(n,K(0.5f),m2)); E(glm::rotateX(n,K(0.5f))); E(glm::lookAt(n,n+m2,V3(K(0.0f),K(1.0f),K(0.0f)))); E(glm::quatLookAt(m2,V3(K(0.0f),K(1.0f),K(0.0f)))); }
+static std::vector<vf::Op*> table(){ return { &gtx_classify,&integer_scalar_types,&gtx_special_relations,&fn_round,&fn_trunc,&fn_floor_ceil,&fn_fract,&fn_roundEven,&fn_sign_abs,&fn_isnan,&fn_isinf,&fn_log2,&fn_exp2,&fn_exp_log,&fn_pow_sqrt,&fn_asinh,&fn_acosh,&fn_atanh,&fn_trig,&fn_trig_inverse,&fn_reciprocal_trig,&fn_fmin_fmax,&fn_fma,&fn_frexp_ldexp_modf,&fn_mix_step_clamp_mod,&fn_nextFloat_prevFloat,&fn_gtc_next_prev_double,&relational,&integer,&integer_ext,&vec_operators,&vec_common,&vec_geometric,&matrix,&transform,&quaternion,&packing,&constructors,&decompose,&gtx_quaternion,&vector_templates }; }
 
 #else // C15_PART==2: floating-point vector overloads of gtc/round, kept in their own translation unit (a configuration under which
       // they stop compiling must not take the rest of the table with it)
